@@ -119,6 +119,20 @@ class Exec:
             return dict.fromkeys(seq).keys()
         if kind == "reversed2":
             return reversed(list(reversed(seq)))
+        if isinstance(kind, str) and kind.startswith("gen_raises:"):
+            # fault in the argument itself: an iterable that fails after k items
+            k = int(kind.split(":")[1])
+
+            def failing():
+                from egsim.seams import InjectedFault
+
+                for i, x in enumerate(seq):
+                    if i >= k:
+                        break
+                    yield x
+                raise InjectedFault("argument iterable failed")
+
+            return failing()
         return seq
 
     def norm(self, val):
